@@ -5,6 +5,7 @@ import (
 	"path/filepath"
 	"sort"
 	"strings"
+	"verif/harness/internal/observe"
 )
 
 // fixtureDirs lists the manifest directories shipped with the repository under test (read-only INPUTS; their golden
@@ -81,4 +82,18 @@ func fixtureAt(repo, tier string, k int) string {
 		d = fixtureFor(repo, k+1)
 	}
 	return d
+}
+
+// dropIngressController returns a copy of the result without the synthetic {ingress-controller} lines (the subject of C10; the
+// policy model of C01/C02 does not know that peer).
+func dropIngressController(res *observe.ListResult) *observe.ListResult {
+	c := *res
+	c.Entries = nil
+	for _, e := range res.Entries {
+		if e.Src == "{ingress-controller}" || e.Dst == "{ingress-controller}" {
+			continue
+		}
+		c.Entries = append(c.Entries, e)
+	}
+	return &c
 }
